@@ -1,5 +1,5 @@
 CONSTANTS
-  LiftPaths = TRUE
+  LiftPaths = FALSE
   InOrder = TRUE
 INIT Init
 NEXT Next
